@@ -196,7 +196,8 @@ def params_s(draw) -> dict[str, Any]:
     p = lambda: draw(st.sampled_from([0.0, 1.0, 0.05, 0.5]))  # noqa: E731
     out: dict[str, Any] = {"p_session": p(), "p_service": p(), "p_sub_function": p(), "p_identifier": p(),
                            "p_correct_payload_format": p(), "p_dtc_status_mask": p()}
-    out["mandatory_sessions"] = draw(st.sampled_from([[1], [1, 2], [1, 3, 0x7E], [1, 2, 3, 4]]))
+    # the default session is the root of every model wherever (and whether) the list names it
+    out["mandatory_sessions"] = draw(st.sampled_from([[1], [1, 2], [1, 3, 0x7E], [1, 2, 3, 4], [2, 1], [0x40, 3, 1], [3]]))
     out["optional_sessions"] = draw(st.sampled_from([[], [2, 3, 4], [5, 0x40, 0x7E], list(range(2, 0x7F))]))
     out["mandatory_sessions"] = [s for s in out["mandatory_sessions"]]
     out["optional_sessions"] = [s for s in out["optional_sessions"] if s not in out["mandatory_sessions"]]
